@@ -28,25 +28,61 @@ pub(crate) fn new<T>(value: &[UnsafeSyncCell<T>]) -> *mut UnsafeSyncCell<T> {
     unsafe {
         let size = size_of_val(value);
         
+        // A single shared memory object mapped twice, back to back: the two views alias.
+        let fd = shm_fd();
+        assert!(fd >= 0, "unable to create a shared memory object");
+        assert_eq!(libc::ftruncate(fd, size as libc::off_t), 0);
+
         let buffer = libc::mmap(
             ptr::null_mut(),
             2 * size as libc::size_t,
-            libc::PROT_READ | libc::PROT_WRITE,
+            libc::PROT_NONE,
             libc::MAP_PRIVATE | libc::MAP_ANONYMOUS,
             -1, 0
         );
-        
-        libc::mmap(
-            buffer.byte_add(size),
-            size as libc::size_t,
-            libc::PROT_READ | libc::PROT_WRITE,
-            libc::MAP_PRIVATE | libc::MAP_ANONYMOUS | libc::MAP_FIXED,
-            -1, 0
-        );
+        assert_ne!(buffer, libc::MAP_FAILED);
+
+        for view in [buffer, buffer.byte_add(size)] {
+            let m = libc::mmap(
+                view,
+                size as libc::size_t,
+                libc::PROT_READ | libc::PROT_WRITE,
+                libc::MAP_SHARED | libc::MAP_FIXED,
+                fd, 0
+            );
+            assert_eq!(m, view);
+        }
+        libc::close(fd);
 
         let r = buffer as *mut UnsafeSyncCell<T>;
-        libc::memcpy(value.as_ptr() as _, r as _, size_of_val(value));
-        
+        libc::memcpy(r as _, value.as_ptr() as _, size);
+
         r
     }
+}
+
+/// Creates an anonymous (already unlinked) shared memory object.
+unsafe fn shm_fd() -> libc::c_int {
+    static COUNTER: core::sync::atomic::AtomicUsize = core::sync::atomic::AtomicUsize::new(0);
+
+    // "/mrb-<pid>-<n>", hex encoded, NUL terminated.
+    let mut name = [0u8; 48];
+    name[..5].copy_from_slice(b"/mrb-");
+    let mut i = 5;
+    for mut x in [libc::getpid() as usize, COUNTER.fetch_add(1, core::sync::atomic::Ordering::Relaxed)] {
+        loop {
+            name[i] = b"0123456789abcdef"[x & 15];
+            i += 1;
+            x >>= 4;
+            if x == 0 { break; }
+        }
+        name[i] = b'-';
+        i += 1;
+    }
+
+    let fd = libc::shm_open(name.as_ptr() as _, libc::O_RDWR | libc::O_CREAT | libc::O_EXCL, 0o600);
+    if fd >= 0 {
+        libc::shm_unlink(name.as_ptr() as _);
+    }
+    fd
 }
